@@ -386,5 +386,7 @@ STD_ENUMS = {
     'std::collections::hash_map::Entry': [('Occupied', 0), ('Vacant', 1)],
     'std::collections::btree_map::Entry': [('Vacant', 0), ('Occupied', 1)],
     'std::path::Component': [('Prefix', 0), ('RootDir', 1), ('CurDir', 2), ('ParentDir', 3), ('Normal', 4)],
+    'serde_json::Value': [('Null', 0), ('Bool', 1), ('Number', 2), ('String', 3), ('Array', 4), ('Object', 5)],
+    'serde_json::value::Value': [('Null', 0), ('Bool', 1), ('Number', 2), ('String', 3), ('Array', 4), ('Object', 5)],
     'std::io::ErrorKind': [('NotFound', 0), ('PermissionDenied', 1), ('Other', 39)],
 }
